@@ -19,7 +19,10 @@ PROPS["C07"] = {
     "rule": ("strings are (a) enumerated exhaustively up to a length bound over the 11-symbol alphabet "
              "{a Z 1 . - _ : / = e-acute space}, every byte value substituted/inserted at every position of 4 valid "
              "skeletons, all compositions of valid 1..3-char parts; (b) drawn by rapid: valid-by-construction names, "
-             "one-edit near misses, random bytes, random unicode; (c) thorough: native fuzzing with the same oracle. "
+             "one-edit near misses, random bytes, random unicode; 27 Unicode look-alike / case-folding runes (Kelvin sign, dotted I, long s, "
+             "full-width forms, Cyrillic a, Arabic-Indic zero, superscript two, ...) substituted and inserted at every position of the "
+             "skeletons; every validator is called twice and valid device names are re-used as vendor and class (the verdict must not "
+             "depend on what was validated before); (c) thorough: native fuzzing with the same oracle. "
              "Oracle: hand-written recogniser of the grammar in the statement (model/names.go). "
              "A case is non-trivial iff it has a '/' followed later by a '=' with non-empty text around them "
              "(so part validation is reached) - this includes every valid name; distinct = distinct strings."),
@@ -51,7 +54,8 @@ PROPS["C06"] = {
              "intelRdt, additionalGids, annotations, digit-first device name, dotted class) a set of places (spec level or device k of n). "
              "Exhaustive part: every feature absent or at exactly one place, n = 1..3 devices, every device order, every released version "
              "(29 declared strings incl. unreleased ones on 1/8 of the Specs). Rapid part: n <= 4, arbitrary subsets of places, random "
-             "declared strings. Oracle: model.RequiredVersion (max over the introduction versions of the statement) and 'released and >= "
+             "declared strings; the featured list element is placed behind 0..2 plain elements (and before one) of the same list, digit-first "
+             "names are also generated as one-character names. Oracle: model.RequiredVersion (max over the introduction versions of the statement) and 'released and >= "
              "minimum'; metamorphic: device permutations give the same minimum; ReadSpec on a file agrees (1/16..1/64 of cases). "
              "Non-trivial iff >= 2 devices and a feature sits in a device that is not last in the order; distinct = distinct (placement, order, declared)."),
     "exhaustive_part": "all 2^7 feature subsets x all single placements for 1..3 devices x all device orders x all 7 released versions",
@@ -259,9 +263,11 @@ PROPS["C04"] = {
     "rule": ("A layout as in C01, a generated OCI spec (or nil in 1 of 10 cases) and a request of 1..8 names drawn from: names the model "
              "resolves, pool names that are unknown / defined only in invalid files, names removed by a same-priority conflict, 20 "
              "syntactically invalid strings (empty, missing parts, trailing separators, blanks, newline), names of a foreign vendor, and "
-             "repetitions of earlier entries. Oracle: U = the subsequence of the request that layout.Resolve does not resolve; if U is "
+             "repetitions of earlier entries; in 1 of 3 cases the directories are changed (files added / removed) after the manual-refresh "
+             "cache was populated and no Refresh() follows. Oracle: U = the subsequence of the request that layout.Resolve does not resolve; if U is "
              "non-empty the call returns exactly U (order, multiplicity) and an error and the OCI spec's JSON image equals that of the "
-             "copy taken before; if U is empty it returns (nil, nil); nil spec: whole request and an error. Non-trivial iff the request "
+             "copy taken before; if U is empty it returns (nil, nil); nil spec: whole request and an error; in the stale variant the answer must be the one for the content before OR the one "
+             "for the content after the change, never a mixture. Non-trivial iff the request "
              "mixes >= 1 resolvable and >= 1 unresolvable name on a populated OCI spec; distinct = distinct (layout, request)."),
     "assumptions": ["unmodified is judged on the JSON image and on reflect.DeepEqual of JSON clones"],
     "manifest": {
@@ -323,7 +329,7 @@ PROPS["C16"] = {
     "level": "exploration",
     "rule": ("(valid Spec, transient id, name generator, extension, directory list, pre-existing content) drawn by rapid. Specs over vendors with "
              "dots and classes ending in .json/.yaml (gpu.json, x.yaml, y.yaml.json); ids from a list of 30 path-hostile strings ('/', '..', "
-             "'../../x', leading dots, .json/.yaml suffixes, NUL, newline, backslash) and the hostile string generator incl. 300-byte ids; all "
+             "'../../x', leading dots, .json/.yaml suffixes, NUL, newline, backslash) and the hostile string generator incl. 300-byte ids and ids sized so that the final file name is 236..256 bytes long; all "
              "four Generate* functions, with '', .json or .yaml appended; 1..3 directories, the last one existing / missing / nested-missing; "
              "pre-existing: the same devices in a lower directory, a file already at the target, the same stem with the other extension, an "
              "unrelated Spec, plus bystander files outside the Spec directories. Oracle: (1) the generated name is a single path component; "
@@ -352,7 +358,8 @@ PROPS["C14"] = {
     "rule": ("rapid state machine over one cache. Initial state: 1..3 Spec files (json/yaml, declared version = the model's minimum, so that an "
              "added hostPath would make a written-back Spec invalid) with 1..2 devices each and optional spec-level edits; every device node "
              "leaves a drawn subset of {hostPath, type, major/minor} unspecified and points - by hostPath or by its path itself - at one of "
-             "four host nodes in a sandbox directory (mknod char/block with drawn numbers, FIFO, regular file, missing). Actions: inject a "
+             "four host nodes, and carries fileMode / uid / gid pointers with unusual values (setgid bits, raw st_mode, 2^32-1) in half of "
+             "the cases; the nodes point at four host nodes in a sandbox directory (mknod char/block with drawn numbers, FIFO, regular file, missing). Actions: inject a "
              "drawn request into a fresh OCI spec and into a twin copy (or repeat the previous request on an equal OCI spec), "
              "Device.ApplyEdits, Spec.ApplyEdits, replace a host node by another type/major/minor (or remove it), write a cached Spec back "
              "through another cache and read it. Oracle: (1) after every action the JSON image of every cached Spec (GetVendorSpecs) and "
@@ -386,7 +393,8 @@ PROPS["C17"] = {
              "losslessly into specs.Spec - Validate(spec) / ValidateType must all equal the model's verdict, for the builtin schema and for "
              "an externally loaded copy of the shipped files; for malformed annotations only JSON-vs-YAML equality per entry point; the "
              "none, NOP and nil schemas must accept every object document through every entry point; sentinels: builtin rejects {} and "
-             "'devices: 3'. Non-trivial iff the document is invalid by exactly one mutation, or has an integer beyond 2^53, or is an "
+             "'devices: 3'. large unit: documents of 0.5 MiB, 1 MiB -/+ 4 KiB (thorough: 2.5 and 6 MiB), as many devices or one long string, "
+             "valid / invalid in the last device / invalid root member, through the same entry points. Non-trivial iff the document is invalid by exactly one mutation, or has an integer beyond 2^53, or is an "
              "unmutated valid document; distinct = distinct document trees."),
     "assumptions": ["non-object roots are only checked against the builtin/external schema (the statement's domain lists object documents for the none/nil clause)",
                     "the model ignores unknown keywords as draft-07 requires (the shipped '\"ref\": \"#definitions/Env\"' typo is therefore no constraint)",
@@ -432,7 +440,8 @@ PROPS["C18"] = {
 
 PROPS["C19"] = {
     "level": "exploration",
-    "rule": ("cdi unit: a generated layout (1..4 existing, distinct directories with valid / invalid / ignored entries, shadowing and conflicts) "
+    "rule": ("cdi unit: a generated layout (1..4 existing directories, repeats and other spellings of one path allowed, with valid / invalid / "
+             "ignored entries, shadowing and conflicts; Specs carry hooks, device nodes, mounts, GIDs, RDT) "
              "is passed as '-d a,b' or as repeated --spec-dirs, with --schema builtin / none / default; 1..3 drawn sub-commands per layout "
              "among devices, devices -v -o json|yaml, vendors, classes, specs, dirs, validate, inject <oci file json|yaml> <1..3 glob "
              "patterns> -o json|yaml. Oracle (differential): an in-process cache with default options over the same directories with the "
@@ -471,7 +480,10 @@ PROPS["C11"] = {
              "action the view through queries (devices with path, priority and definition; files in error) is polled until it equals the "
              "view of a cache freshly built from the final directory contents; only 'still different 10 s after the last change' is a "
              "violation. Directory-level monitoring errors are not part of the view. One case = one history (~30 actions; counter "
-             "'steps'). Non-trivial iff the history has a create-only event (move-in, link, empty create), a directory removed or "
+             "'steps'). configure-race unit: a 300-file directory; 16 (thorough 64 per shard) times a file already passed by the scan is "
+             "replaced at a delay spread over the duration of one scan while Configure / NewCache runs; the cache must still converge "
+             "(the watch has to exist before the scan). regress unit: scripted histories with explicit pacing (cache lock held to delay "
+             "the watcher) for F10 and F17. Non-trivial iff the history has a create-only event (move-in, link, empty create), a directory removed or "
              "created, or >= 4 actions; distinct = distinct histories. Race-detector build."),
     "assumptions": ["'soon' is decided by a 10 s quiescence bound (observed convergence: milliseconds)",
                     "not generated: renaming a watched directory away, writes through a hard link from outside, chmod-only changes, symlink targets changing"],
@@ -499,13 +511,15 @@ PROPS["C10"] = {
              "thread) runs under strace; a calibration run on exactly that initial state lists every system call of the writer that touches "
              "the Spec directory (by path or through a descriptor opened there: newfstatat, mkdirat, openat, write, close, openat dir, "
              "renameat2, close); then for every such call k one run in which the writer is killed (SIGKILL) on entry to call k and one run "
-             "per errno in {ENOSPC, EIO, EACCES, EMFILE} injected into call k; every run's own trace is parsed and the run is judged only if "
+             "per errno in {ENOSPC, EIO, EACCES, EMFILE} injected into call k (after every failed or interrupted run a second, shorter Spec is written under the same name into "
+             "the directory as it was left: the target must then hold exactly that Spec - leftovers must not leak into a later "
+             "publication); every run's own trace is parsed and the run is judged only if "
              "the fault landed on the intended call (others are counted as excluded). Because the directory only changes at system calls, "
              "'killed before call k' is what a concurrent reader sees between calls k-1 and k. offsets unit - RLIMIT_FSIZE = n in the helper "
              "for n over all offsets 0..len+1 with stride 7 (quick) / 1 (thorough): a genuine partial write. events unit - raw inotify stream "
              "of the directory during WriteSpec: no MODIFY / CLOSE_WRITE under a .json/.yaml name, no temporary entry created under such a "
-             "name, no DELETE of the target. readers unit - 4 ReadSpec loops and 2 refreshing caches against a writer alternating two "
-             "contents (schedule-random). Oracle everywhere (c10Observe): under the target name either no file (only if none before), or a "
+             "name, no DELETE of the target. readers unit - 4 ReadSpec loops and 2 refreshing caches against two concurrent writers "
+             "alternating two contents under one name (schedule-random). Oracle everywhere (c10Observe): under the target name either no file (only if none before), or a "
              "file ReadSpec loads as exactly the previous Spec (bytes unchanged) or exactly the new Spec; no other entry under a Spec name; "
              "bystanders byte-identical; a cache refresh over the directory reports no error; success reported => new content present. "
              "Non-trivial iff the fault lies strictly after the first and not after the last directory-changing call (resp. the write is cut "
@@ -576,7 +590,8 @@ PROPS["C12"] = {
              "Configure(dirs), Configure(auto on), Configure(auto off), WriteSpec, RemoveSpec, Device.ApplyEdits, Spec.ApplyEdits, package-level "
              "Refresh / InjectDevices / GetErrors}; GOMAXPROCS in {2,4,16}; Gosched every 0/1/3/10 operations; an auto-refresh cache or a "
              "manual cache with a refresher goroutine; a switcher goroutine that atomically renames one Spec file between state A (d1,d2,d3, "
-             "all markers A) and state B (d2,d3,d4, markers B) 20..120 times. Oracle: (1) no race-detector report (the process exits 66 with "
+             "all markers A) and state B (d2,d3,d4, markers B) 20..120 times - by write + rename, or (drawn) through Cache.WriteSpec of another cache object "
+             "over the same directory. Oracle: (1) no race-detector report (the process exits 66 with "
              "the report; the program is left in a replay file); (2) watchdog: some operation returns at least every 30 s, else a goroutine "
              "dump; (3) snapshot consistency: every ListDevices result restricted to the kind is exactly A's or B's list, every "
              "InjectDevices(d2,d3) carries markers of one state only, InjectDevices(d1,d4) fails with exactly one unresolved name and leaves "
@@ -607,7 +622,8 @@ PROPS["C08"] = {
              "deletion, truncation, duplication, byte overwrite), capped at 64 KiB. Every input goes through ParseSpec, ReadSpec, a cache "
              "refresh over a directory holding it next to a known-good file (the malformed file must get an error entry, the good file's "
              "device must still resolve), GetErrors / GetSpecErrors / listings, and - if it loads - injection of each device and of all "
-             "devices into four OCI specs with nil and populated sections plus the nil spec, Device/Spec.ApplyEdits, "
+             "devices into four fixed OCI specs with nil and populated sections, a generated well-formed one and a generated hostile one "
+             "(mounts stacked on one destination also as last entries, repeated device paths, odd env entries, empty hooks) plus the nil spec, Device/Spec.ApplyEdits, "
              "schema.ValidateData / ValidateReader / ReadAndValidate / ValidateFile / Validate / ValidateType, MinimumRequiredVersion, and "
              "a write-back with the builtin schema installed. strings unit: byte strings, near-miss names and hostile strings through all "
              "pkg/parser functions, ValidateEnv, ParseAnnotations, AnnotationKey, AnnotationValue, UpdateAnnotations, InjectDevices, "
